@@ -10,7 +10,8 @@ from ..core import Result, fs, fl, F
 
 ID = "C14"
 RULE = ("seeded call histories (length 2..10) over the query API of the three formulations (size, tuple<->index lookups, objective, constraints, QUBO "
-        "in both modes, route decoding) interleaved with 0..2 runs of the feasibility heuristic, biased to 'query ... heuristic ... query'; each "
+        "in both modes, route decoding) interleaved with 0..2 runs of the feasibility heuristic, biased to 'query ... heuristic ... query', plus a "
+        "systematic stream with every (formulation, query kind) pair as the only query before a heuristic run that must change the instance; each "
         "history is run on a twin object without the queries that precede the heuristic and the full observable state afterwards is compared; "
         "every query is issued twice; non-trivial = history with a query before a heuristic run that changes the instance (adds an arc / node / "
         "vehicle / route); distinct = distinct (instance, history)")
@@ -27,6 +28,23 @@ QUERIES = ["n", "idx", "tup", "obj", "con", "qubo_o", "qubo_f", "routes"]
 def gen(rng, tier):
     n_cases = 200 if tier == "quick" else 3000
     for k in range(n_cases):
+        if k % 4 == 1:
+            # systematic stream: every (formulation, query kind) pair as the ONLY query before a heuristic run that must change the
+            # instance (a customer without an arc from the depot / an empty route pool), followed by every query kind
+            q = QUERIES[(k // 4) % len(QUERIES)]
+            form = ["arc", "path", "seq"][(k // (4 * len(QUERIES))) % 3]
+            case = FU.gen_form_case(rng, tier, forms=(form,), heur_p=0.0, nmax=4)
+            custs = [nd["name"] for nd in case["spec"]["nodes"][1:]]
+            if custs:
+                c = rng.choice(custs)
+                dep = case["spec"]["nodes"][0]["name"]
+                case["spec"]["arcs"] = [a for a in case["spec"]["arcs"] if not (a[0] == dep and a[1] == c)]
+            if form == "path":
+                case["routes"] = []
+            case["hist"] = [[q], ["heur", rng.choice(["10", "1000"])]] + [[x] for x in QUERIES]
+            case["systematic"] = True
+            yield case
+            continue
         if k % 3 == 0:
             spec, info = VU.gen_planted(rng, ncust=rng.randint(1, 3), extra_arc_p=rng.choice([0.0, 0.2, 0.5]), wide=True)
             form = rng.choice(["arc", "path", "seq"])
